@@ -28,8 +28,9 @@ type peer struct {
 	txs     map[util.Uint256]*transaction.Transaction // served on getdata
 	txBad   map[util.Uint256]bool
 	pre     []*block.Block // blocks served on getblockbyindex
+	lastGBI [2]int
 	exts    map[util.Uint256]*payload.Extensible      // served on getdata
-	mute    bool                                      // never answers getdata
+	mute    bool                                      // never answers getdata for transactions
 	txOrder string                                    // asc | desc
 	txDup   bool
 	byUs    bool
@@ -134,7 +135,7 @@ func (p *peer) loop() {
 		case network.CMDExtensible:
 			e := m.Payload.(*payload.Extensible)
 			ev := p.to.w.classify(e)
-			ev["event"], ev["m"] = "r", "extensible"
+			ev["event"], ev["m"], ev["x"] = "r", "extensible", p.to.copyID(e)
 			p.emit(ev)
 			select {
 			case p.gotExt <- e:
@@ -159,11 +160,18 @@ func (p *peer) loop() {
 			}
 		case network.CMDGetBlockByIndex:
 			g := m.Payload.(*payload.GetBlockByIndex)
-			p.emit(map[string]any{"event": "r", "m": "getblockbyindex", "start": int(g.IndexStart), "count": int(g.Count)})
+			// the node repeats its block requests on every protocol tick: identical consecutive ones are recorded once
+			if k := [2]int{int(g.IndexStart), int(g.Count)}; k != p.lastGBI {
+				p.lastGBI = k
+				p.emit(map[string]any{"event": "r", "m": "getblockbyindex", "start": int(g.IndexStart), "count": int(g.Count)})
+			}
 			p.serveBlocks(int(g.IndexStart), int(g.Count))
 		case network.CMDGetHeaders:
 			g := m.Payload.(*payload.GetBlockByIndex)
-			p.emit(map[string]any{"event": "r", "m": "getheaders", "start": int(g.IndexStart), "count": int(g.Count)})
+			if k := [2]int{-1 - int(g.IndexStart), int(g.Count)}; k != p.lastGBI {
+				p.lastGBI = k
+				p.emit(map[string]any{"event": "r", "m": "getheaders", "start": int(g.IndexStart), "count": int(g.Count)})
+			}
 		default:
 			p.emit(map[string]any{"event": "r", "m": cmdName(m.Command)})
 		}
@@ -204,7 +212,7 @@ func (p *peer) serve(inv *payload.Inventory) {
 	order, dup := p.txOrder, p.txDup
 	p.mu.Unlock()
 	if mute {
-		return
+		txs = nil // (a mute peer never answers requests for TRANSACTIONS; payloads it announced itself it serves)
 	}
 	if order == "desc" {
 		for i, j := 0, len(txs)-1; i < j; i, j = i+1, j-1 {
@@ -231,7 +239,7 @@ func (p *peer) sendTx(tx *transaction.Transaction, via string, ok bool) {
 }
 
 func (p *peer) sendExt(e *payload.Extensible, via, name string) {
-	ev := map[string]any{"event": "s", "m": "extensible", "x": sid(e.Hash()), "via": via}
+	ev := map[string]any{"event": "s", "m": "extensible", "x": p.to.copyID(e), "hx": sid(e.Hash()), "via": via}
 	if name != "" {
 		ev["name"] = name
 	}
